@@ -59,9 +59,22 @@ class Loop:
         for i in range(self.n_consumers):
             comp = default_components_factory()
             comp.action_dispatcher_class = RequestDispatcher
-            c = SdcConsumer(x_addr[0], sdc_definitions=self.provider.mdib.sdc_definitions, ssl_context_container=None,
-                            validate=True, components=comp)
-            c.start_all()
+            # the first request of a consumer occasionally times out when the machine is very busy (socket timeout 5 s):
+            # that is a failure of the harness set-up, not of the code under test - try again with a new consumer
+            for attempt in range(3):
+                c = SdcConsumer(x_addr[0], sdc_definitions=self.provider.mdib.sdc_definitions, ssl_context_container=None,
+                                validate=True, components=comp)
+                try:
+                    c.start_all()
+                    break
+                except Exception:  # noqa: BLE001
+                    try:
+                        c.stop_all(unsubscribe=False)
+                    except Exception:  # noqa: BLE001
+                        pass
+                    if attempt == 2:
+                        raise
+                    time.sleep(1.0)
             self.consumers.append(c)
             if self.with_consumer_mdib:
                 m = ConsumerMdib(c)
